@@ -213,8 +213,6 @@ def check_text_format(text, data, lb):
     """C06 oracle on an encoder output: returns None if everything the property states holds, else a message"""
     if len(text) == 0 or text[-1] != 0:
         return "text is not NUL-terminated"
-    if 0 in text[:-1]:
-        return "NUL inside the text"
     sl = split_lines(text)
     if sl is None:
         return "no line structure"
@@ -226,6 +224,8 @@ def check_text_format(text, data, lb):
             return "last line has %d code characters" % len(l)
         if brk[i] != bytes([lb & 255, 10]):
             return "line %d is followed by %r instead of the break bytes" % (i, brk[i])
+        if 0 in l:
+            return "NUL inside line %d" % i
     code = b"".join(lines)
     try:
         payload = base64.b64decode(code, validate=True)        # strict RFC 4648 reader of the standard library
